@@ -7,6 +7,7 @@
 mod bits;
 mod expr;
 mod ops;
+mod qasm;
 mod reg;
 mod sampler;
 mod util;
@@ -37,6 +38,7 @@ fn main() {
             "ops" => ops::run(&toks),
             "bits" => bits::run(&toks),
             "reg" => reg::run(&toks),
+            "qasm" => qasm::run(&toks),
             "sampler" => sampler::run(&toks),
             other => format!("ERR unknown-engine {}", other),
         });
